@@ -270,7 +270,24 @@ def node_adding(ctx, repo: Repo, pid: str):
         if isinstance(n, ast.Call) and isinstance(n.func, ast.Attribute) and n.func.attr in ("remove_node", "remove_nodes_from", "clear") and \
                 src(n.func.value) == "self.G":
             rem.append((n, _func_of(m, n)))
-    ctx.instance("OWN")
+    # ... nor through a helper that removes nodes from the graph it is given, called with (an alias of) self.G
+    from .astutil import Canon
+    removers = {}
+    for fname, fi_ in m.functions.items():
+        params_ = fi_.params()
+        for n in ast.walk(fi_.node):
+            if isinstance(n, ast.Call) and isinstance(n.func, ast.Attribute) and n.func.attr in ("remove_node", "remove_nodes_from", "clear") and \
+                    isinstance(n.func.value, ast.Name) and n.func.value.id in params_:
+                removers[fname.split(".")[-1]] = params_.index(n.func.value.id)
+    for ci_ in m.classes.values():
+        for fi_ in ci_.methods.values():
+            cn_ = Canon(Canon.single_defs(fi_.node.body))
+            for n in ast.walk(fi_.node):
+                if isinstance(n, ast.Call) and isinstance(n.func, ast.Name) and n.func.id in removers and len(n.args) > removers[n.func.id]:
+                    a_ = n.args[removers[n.func.id]]
+                    if cn_.text(a_).replace(" ", "") == "self.G":
+                        rem.append((n, fi_.where))
+    ctx.instance("OWN", 1 + len(removers))
     ctx.check(not rem, "OWN", f"{pid}.nodes.never_removed", "nodes are never removed from the polytope graph (node count identifies the "
               "subdivision state; cached sorted node arrays stay valid)", f"{m.relpath}", src(rem[0][0]) if rem else "", witness=str([r[1] for r in rem]))
 
@@ -648,3 +665,105 @@ def second_neighbour_search(ctx, repo: Repo, pid: str):
     else:
         ctx.inconclusive("CANDIDATES", f"{pid}.second_neighbours", "intermediate-node set of the second-neighbour walk not recognised", fi.where,
                          witness=str(verdicts))
+
+
+def subdivision_unconditional(ctx, repo: Repo, pid: str):
+    """DOM: every call of divide_edges performs one subdivision: in Polytope.divide_edges the node-adding step and the index-assigning
+    step, and in every override the call of super().divide_edges(), are executed on every path (top level of the body, no earlier
+    return).  A request that is silently ignored (level cap, early return) leaves the polytope one level behind what the caller - and
+    the grid that asks for N points - expects."""
+    m = repo.module(PO)
+    n_sites = 0
+    bad = []
+    for ci in m.classes.values():
+        fi = ci.methods.get("divide_edges")
+        if fi is None:
+            continue
+        ctx.analysed(fi)
+        required = ["_add_mid_edge_nodes", "_end_of_divison"] if ci.name == "Polytope" else ["super().divide_edges"]
+        body = [s_ for s_ in fi.node.body if not (isinstance(s_, ast.Expr) and isinstance(s_.value, ast.Constant))]
+        top_calls = {}
+        for k_, s_ in enumerate(body):
+            if isinstance(s_, ast.Expr) and isinstance(s_.value, ast.Call):
+                t_ = src(s_.value.func)
+                for r_ in required:
+                    if t_ == r_ or t_ == "self." + r_:
+                        top_calls[r_] = k_
+        for r_ in required:
+            n_sites += 1
+            anywhere = [c for c in ast.walk(fi.node) if isinstance(c, ast.Call) and src(c.func) in (r_, "self." + r_)]
+            if r_ in top_calls:
+                # no return / raise-free exit before it
+                early = [x for s_ in body[:top_calls[r_]] for x in ast.walk(s_) if isinstance(x, ast.Return)]
+                if early:
+                    bad.append((fi, r_, "a `return` can be reached before the call", early[0]))
+            elif anywhere:
+                bad.append((fi, r_, "the call is nested in a compound statement (executed only under a condition)", anywhere[0]))
+            else:
+                bad.append((fi, r_, "the call is missing", None))
+    ctx.instance("DOM", max(1, n_sites))
+    if n_sites == 0:
+        ctx.inconclusive("DOM", f"{pid}.subdivide.always", "no divide_edges method found", m.relpath)
+        return
+    for fi, r_, why, node in [b_ for b_ in bad if not b_[2].startswith("a `return`")]:
+        # restructured (step inlined / guarded): not judged
+        ctx.inconclusive("DOM", f"{pid}.subdivide.always", f"{fi.qualname}: `{r_}()` is not a top-level statement of divide_edges ({why})", fi.where,
+                         witness=why)
+    for fi, r_, why, node in [b_ for b_ in bad if b_[2].startswith("a `return`")]:
+        ctx.violate("DOM", f"{pid}.subdivide.always", f"{fi.qualname}: `{r_}()` is not executed on every call of divide_edges ({why}): a "
+                    "subdivision request can be silently ignored, the polytope then holds the lattice of the previous level while callers count "
+                    "on the next one", fi.where, norm_stmt(getattr(node, "_parent", node))[:160] if node is not None else "", witness=why)
+    if not bad:
+        ctx.ok("DOM", f"{pid}.subdivide.always", f"every divide_edges implementation ({n_sites} required steps) performs its subdivision "
+               "unconditionally", m.relpath)
+
+
+def face_criterion_agreement(ctx, repo: Repo, pid: str):
+    """sibling agreement of every routine that adds same-face edges: "on the same face" means the face sets of the two nodes
+    INTERSECT (Polytope._find_face).  An edge node carries two faces, a face-interior node one: a routine that compares the sets for
+    equality never connects them, and the lattice of the next level misses the points on those edges."""
+    m = repo.module(PO)
+    sites = []
+    for ci in m.classes.values():
+        for fi in ci.methods.values():
+            if "only_face" not in fi.params():
+                continue
+            adds = [c for c in ast.walk(fi.node) if isinstance(c, ast.Call) and isinstance(c.func, ast.Attribute) and c.func.attr == "add_edge"]
+            if not adds:
+                continue
+            tests = [n for n in ast.walk(fi.node) if isinstance(n, ast.If) and any(isinstance(x, ast.Name) and x.id == "only_face" for x in ast.walk(n.test))]
+            sites.append((fi, tests))
+    ctx.instance("CANDIDATES", max(1, len(sites)))
+    if not sites:
+        ctx.inconclusive("CANDIDATES", f"{pid}.face_criterion", "no edge-adding routine with a same-face option found", m.relpath)
+        return
+    from .astutil import Canon
+    verdicts = []
+    for fi, tests in sites:
+        ctx.analysed(fi)
+        cn = Canon(Canon.single_defs(fi.node.body))
+        for t in tests:
+            te = cn.expand(t.test)
+            txt = src(te)
+            uses_find = any(isinstance(c, ast.Call) and isinstance(c.func, ast.Attribute) and c.func.attr == "_find_face" for c in ast.walk(te))
+            inter = any(isinstance(c, ast.Call) and isinstance(c.func, ast.Attribute) and c.func.attr in ("intersection", "isdisjoint") for c in ast.walk(te)) or \
+                any(isinstance(b_, ast.BinOp) and isinstance(b_.op, ast.BitAnd) for b_ in ast.walk(te))
+            eq = [c for c in ast.walk(te) if isinstance(c, ast.Compare) and len(c.ops) == 1 and isinstance(c.ops[0], (ast.Eq, ast.NotEq)) and
+                  "face" in src(c).lower()]
+            if uses_find or inter:
+                verdicts.append((fi, t, "ok", txt))
+            elif eq:
+                verdicts.append((fi, t, "eq", src(eq[0])))
+            else:
+                verdicts.append((fi, t, "?", txt))
+    bad = [v for v in verdicts if v[2] == "eq"]
+    unk = [v for v in verdicts if v[2] == "?"]
+    for fi, t, _, txt in bad:
+        ctx.violate("CANDIDATES", f"{pid}.face_criterion", f"{fi.qualname} decides 'same face' by EQUALITY of the two nodes' face sets; the other "
+                    "routines (and the node-creation step) use a non-empty INTERSECTION (_find_face): an edge node {A,B} and an interior node {A} "
+                    "are never connected, the points that the next subdivision puts on those edges are missing", fi.where, txt[:160],
+                    witness="faces {A, B} vs {A}: share face A, sets differ")
+    for fi, t, _, txt in unk:
+        ctx.inconclusive("CANDIDATES", f"{pid}.face_criterion", f"{fi.qualname}: same-face test not recognised", fi.where, witness=txt[:160])
+    if not bad and not unk:
+        ctx.ok("CANDIDATES", f"{pid}.face_criterion", f"all {len(sites)} same-face edge routines use the shared-face (intersection) criterion", m.relpath)
